@@ -742,6 +742,11 @@ Example lookup_nonvacuous :
   lookup ex_gtbl false [] (bs "/pkg.Svc/Get") = Some [ex_u].
 Proof. vm_compute. repeat split. Qed.
 
+Lemma reachable_wf ng t ops : wf (s_pool (run ng (mks t p_init) ops)).
+Proof. apply run_wf. exact wf_init. Qed.
+Lemma sequential_no_orphans_init ops urls c : orphan (snd (p_run (urls, p_init) ops)) c = false.
+Proof. apply (sequential_no_orphans ops (urls, p_init)); [exact wf_init | exact accounted_init]. Qed.
+
 (* ---- message size limits ---- *)
 Theorem relay_within_limits rx tx req resp :
   req <= rx -> resp <= tx -> resp <= rx -> relay_sized rx tx req resp = mksized true true 0.
